@@ -42,6 +42,10 @@ func (p c05) Run(c *core.Ctx) {
 		p.supplied(c)
 		return
 	}
+	if c.Index%25 == 18 {
+		p.lazyCandidates(c)
+		return
+	}
 	if c.Index%5 == 4 {
 		p.retry(c)
 		return
@@ -569,9 +573,18 @@ func (p c05) mixin(c *core.Ctx) {
 	g.ShuffleOrders()
 	g.Sc.Config = "mix:\n  key: v\n"
 	h := &world.MixinHolder{}
-	r := world.Start(g.Sc, world.Options{Extra: []any{h}})
+	// a post-processor component with the same points and an Init of its own (ordered behind the built-in
+	// processors, so they are all active when it is created)
+	ipp := &world.InitPP{Ord: []int{100, 50, 9}[c.Rng.Intn(3)]}
+	r := world.Start(g.Sc, world.Options{Extra: []any{h, ipp}})
 	c.Count("starts", 1)
 	c.Count("mixin_starts", 1)
+	if r.Outcome() == "ok" {
+		if want := `dep-set=true dep-initialised=true cfg="v"`; ipp.Inits != 1 || ipp.SeenAtInit != want {
+			c.Fail("", fmt.Sprintf("post-processor component with injection points: Init ran %d time(s) and saw %s; expected once with %s", ipp.Inits, ipp.SeenAtInit, want), failDetail(g.Sc, r, map[string]any{"events": renderEvents(r.Log.Events(), 60)}))
+			return
+		}
+	}
 	if r.Outcome() != "ok" {
 		c.Fail("", "start of a satisfiable scenario did not succeed: "+core.Short(r.OutcomeDetail(), 400), failDetail(g.Sc, r, nil))
 		return
@@ -666,4 +679,41 @@ func (p c05) supplied(c *core.Ctx) {
 		return
 	}
 	c.Nontrivial("supplied|" + g.Sc.GraphSig() + fmt.Sprint(npp))
+}
+
+// lazyCandidates: a single-valued pointer point with several same-typed lazy candidates: the one the
+// narrowing rules select is created and initialised for the holder, the others - lazy, needed by nobody
+// - are not.
+func (p c05) lazyCandidates(c *core.Ctx) {
+	g := world.NewG(c.Rng)
+	lt := 7 // T07: lazy, Init and AfterPropertiesSet (the palette has pointer slots for types 0..7)
+	sel := g.AddNode(lt, "")          // the unnamed one is preferred
+	var others []int
+	for x := 0; x < 1+c.Rng.Intn(3); x++ {
+		others = append(others, g.AddNode(lt, g.FreshName(x+1)))
+	}
+	h := g.AddRandomNode(world.TypesEagerPlain, 0.2)
+	g.SetTag(h, fmt.Sprintf("P%02d", lt), "wire", "")
+	g.ShuffleOrders()
+	r := world.Start(g.Sc, world.Options{})
+	c.Count("starts", 1)
+	c.Count("lazy_candidate_starts", 1)
+	detail := failDetail(g.Sc, r, map[string]any{"events": renderEvents(r.Log.Events(), 60)})
+	if r.Outcome() != "ok" {
+		c.Fail("", "start did not succeed: "+core.Short(r.OutcomeDetail(), 300), detail)
+		return
+	}
+	refs, _ := r.SlotRefs(r.Nodes[h], fmt.Sprintf("P%02d", lt))
+	if len(refs) != 1 || refs[0].Nil || refs[0].Obj != any(r.Nodes[sel]) {
+		c.Fail("", "the pointer point did not receive the preferred (unnamed) candidate", detail)
+		return
+	}
+	for _, o := range others {
+		on := g.Sc.Nodes[o].DisplayName()
+		if n := countEvents(r, "init", on) + countEvents(r, "aps", on); n > 0 {
+			c.Fail("", fmt.Sprintf("lazy component %q was initialised (%d callbacks) although no created component needs it: it was only one of several candidates of a single-valued point that went to another one", on, n), detail)
+			return
+		}
+	}
+	c.Nontrivial("lazycand|" + g.Sc.GraphSig())
 }
